@@ -1,8 +1,12 @@
 package drv
 
 import (
+	"crypto/x509"
 	"fmt"
 	"time"
+
+	testcases "github.com/google/go-tdx-guest/testing"
+	"github.com/google/go-tdx-guest/testing/testdata"
 
 	"github.com/google/go-tdx-guest/verify"
 
@@ -100,6 +104,16 @@ func RunVerifyCase(cs Case, cfg VerifyCfg) Result {
 		mutBit, altBit int
 	}
 	variants := []variant{{0, -1}}
+	if w.Get("src") == "intel" {
+		c := IntelConcrete(w)
+		for i, o := range cs.Runs {
+			if o["now"] == "unset" {
+				continue
+			}
+			res.Events = append(res.Events, RunVerifyOnce(c, cs.ID, i, o, Event{})...)
+		}
+		return res
+	}
 	if w.Get("mut") != "none" {
 		variants = nil
 		probe := gen.Build(w, gen.Params{Seed: seed})
@@ -164,4 +178,37 @@ func RunVerifyCase(cs Case, cfg VerifyCfg) Result {
 		}
 	}
 	return res
+}
+
+
+// intelRefTime is the reference time at which the repository's sample quote and recorded collateral are in date.
+var intelRefTime = time.Date(2023, time.July, 1, 1, 0, 0, 0, time.UTC)
+
+// IntelConcrete realises src=intel worlds: the genuine Intel sample quote with the recorded PCS responses.
+func IntelConcrete(w gen.World) *gen.Concrete {
+	raw := append([]byte{}, testdata.RawQuote...)
+	q, ok := gen.Decode(raw)
+	if !ok {
+		panic("sample quote does not follow the layout")
+	}
+	c := &gen.Concrete{W: w, Q: q, Raw: raw, Clocks: map[string]time.Time{}, T0: intelRefTime, FMSPC: "50806f000000", CA: "platform"}
+	for _, n := range gen.ClockNames {
+		c.Clocks[n] = intelRefTime
+	}
+	c.TcbURL, c.QeURL, c.PckCrlURL, c.RootCrlURLs = gen.TcbInfoURL(c.FMSPC), gen.QeIdentityURL(), gen.PckCrlURL("platform"), []string{gen.DefaultRootCrlURL}
+	g := gen.NewGetter()
+	for u, r := range testcases.TestGetter.Responses {
+		g.Set(u, gen.Response{Header: r.Header, Body: r.Body})
+	}
+	c.Getter = g
+	other := gen.NewPKI(gen.PKIOpts{T0: intelRefTime})
+	switch w.Get("pool") {
+	case "nil":
+	case "empty":
+		c.Pool = x509.NewCertPool()
+	default: // any generated pool: an unrelated root with Intel's names
+		c.Pool = x509.NewCertPool()
+		c.Pool.AddCert(other.Root.Cert)
+	}
+	return c
 }
